@@ -60,9 +60,8 @@ func WorkerMain(args []string) int {
 	}
 	var curCase, curStart int64
 	atomic.StoreInt64(&curCase, -1)
-	go func() { // per-case watchdog + heap watchdog
-		var ms runtime.MemStats
-		for tick := 0; ; tick++ {
+	go func() { // per-case watchdog
+		for {
 			time.Sleep(250 * time.Millisecond)
 			k, st := atomic.LoadInt64(&curCase), atomic.LoadInt64(&curStart)
 			if k >= 0 && time.Now().UnixNano()-st > int64(limit)*int64(time.Second) {
@@ -71,13 +70,18 @@ func WorkerMain(args []string) int {
 				pprof.Lookup("goroutine").WriteTo(os.Stderr, 2)
 				os.Exit(3)
 			}
-			if tick%8 == 0 {
-				runtime.ReadMemStats(&ms)
-				if ms.HeapAlloc > 3<<30 {
-					fmt.Fprintf(logf, "M %d\n", k)
-					fmt.Fprintf(os.Stderr, "watchdog: heap %d bytes in case %d\n", ms.HeapAlloc, k)
-					os.Exit(4)
-				}
+		}
+	}()
+	go func() { // heap watchdog in its own goroutine: ReadMemStats stops the world and must not delay the time check
+		var ms runtime.MemStats
+		for {
+			time.Sleep(2 * time.Second)
+			runtime.ReadMemStats(&ms)
+			if ms.HeapAlloc > 3<<30 {
+				k := atomic.LoadInt64(&curCase)
+				fmt.Fprintf(logf, "M %d\n", k)
+				fmt.Fprintf(os.Stderr, "watchdog: heap %d bytes in case %d\n", ms.HeapAlloc, k)
+				os.Exit(4)
 			}
 		}
 	}()
